@@ -130,6 +130,11 @@ def run(chk, ctx):
                 if vals is not None:
                     ok = True if vals <= {"A", "A*"} else (False if not (vals & {"A", "A*"}) else None)
                 pas = "a repeated pass" if st.enum_is("$er", "1") == "yes" else "the first pass"
+                plan_dep = any(k.startswith("@plan") and k.endswith(".k") for k in st.enums)
+                if ok is False and plan_dep:
+                    # as in the shared WORK rule: a path that branches on the step kinds a planner returns may be one the
+                    # planner never takes (run-time table values)
+                    ok = None
                 chk.decide("C09.REPEAT", yc + ("/pass2" if st.enum_is("$er", "1") == "yes" else ""), ok,
                            f"working storage is {sorted(vals) if vals else '?'} when Reverse is emitted in {pas}"
                            + ("" if ok is not False else ": the adjoint dependency data were cleared by the previous pass")
